@@ -167,6 +167,11 @@ FramesExact == /\ Len(data) = SumSizes(stack, Len(stack))
 WordsInRange == \A k \in DOMAIN data : data[k] >= 0 /\ data[k] <= MaxWord
 \* C16: the activation stack never exceeds the number of routines (definitions + root)
 DepthBound == Len(stack) <= Len(Maps(p))
+\* C19, unbounded in frame sizes: TheoFrames (whose invariant Apalache proves inductively) is refined by this machine
+FR == INSTANCE TheoFrames WITH stack <- [k \in DOMAIN stack |-> [base |-> stack[k].base, size |-> stack[k].size]],
+                               dlen <- Len(data), MaxDepth <- 64
+FiniteSizes == 0..4096
+FramesRefine == FR!Spec
 \* C08 as an invariant of the loaded programs
 TablesInv == TablesOK(p)
 
